@@ -17,6 +17,7 @@ package evidence
 // was committed by its simulated blocks and of what entered the pending table.
 
 import (
+	"bytes"
 	"crypto/ecdsa"
 	"encoding/binary"
 	"encoding/hex"
@@ -851,6 +852,21 @@ func vf19Case(o *vfOut, r *vfRand, desc string) {
 				ord = "21" // equal keys: the code takes the else branch
 			}
 			out = fmt.Sprintf("ord=%s tot=%d pow=%d", ord, got.TotalVotingPower, got.ValidatorPower)
+			// independent of the model: what a correct node builds from two conflicting votes of one
+			// validator must be acceptable everywhere (ValidateBasic is what every decoder runs), and
+			// must not depend on which of the two votes it saw first
+			genuinePair := v1.v != nil && v2.v != nil && !v1.v.BlockID.Equal(v2.v.BlockID) && v1.v.Height == v2.v.Height &&
+				v1.v.Round == v2.v.Round && v1.v.Type == v2.v.Type && v1.v.ValidatorAddress.Equal(v2.v.ValidatorAddress) &&
+				v1.v.ValidateBasic() == nil && v2.v.ValidateBasic() == nil
+			if genuinePair {
+				if err := got.ValidateBasic(); err != nil {
+					o.Viol("produced-evidence-invalid", fmt.Sprintf("NewDuplicateVoteEvidence(a=%s, b=%s) fails its own ValidateBasic: %v", v1.enc(), v2.enc(), err))
+				}
+				if rev := types.NewDuplicateVoteEvidence(v2.v, v1.v, vf19Time(0), c.valSet(e.ev.Height())); rev == nil || !bytes.Equal(rev.Hash().Bytes(), got.Hash().Bytes()) {
+					o.Viol("produced-evidence-depends-on-arrival-order", fmt.Sprintf("a=%s b=%s", v1.enc(), v2.enc()))
+				}
+				o.Stat("newdve.genuine-pair")
+			}
 		}
 		x.op(fmt.Sprintf("newdve a=%s b=%s vals=%s", v1.enc(), v2.enc(), vf19EncSet(m)), out)
 	}
